@@ -489,7 +489,7 @@ def r8_per_kind_aggregates(ctx):
     conversion .. makes that log invisible to the sync."""
     ws = ctx.ws
     r = ctx.rule("C04-R8", "methods of per-log-kind records cover every log kind the record has",
-                 floor=9, kind="K5 field coverage")
+                 floor=3, kind="K5 field coverage")
     n = 0
     for path, a in sorted(ws.adts.items()):
         if a["kind"] != "Struct" or not a["variants"] or not (path.startswith("sos_sync::") or path.startswith("sos_protocol::diff")):
@@ -516,8 +516,8 @@ def r8_per_kind_aggregates(ctx):
                         it["name"], path.rsplit("::", 1)[-1], sorted(seen), "`, `".join(miss)), work=len(fs))
                 else:
                     r.ok(k, cfg.loc(fn.main), "%s covers %s" % (it["name"], sorted(seen)), work=len(fs))
-    if n < 9:
-        r.anchor_missing("hand-written methods over per-kind records (found %d, 9 on the pinned tree)" % n)
+    if n < 3:
+        r.anchor_missing("hand-written methods over per-kind records (found %d, 3 on the pinned tree: has_conflicts, maybe_conflict, diff)" % n)
 
 
 FILTERING = {"filter", "filter_map", "take", "skip", "take_while", "skip_while", "step_by", "retain", "find", "find_map", "nth", "last", "rev_filter"}
